@@ -134,11 +134,25 @@ def run_case(c):
         seen_inputs.add((st, inp))
         word = inputs.from_input(inp, binary)
         ref_ok = model.accepts(word, st)
-        for mode in ("forest", "first"):
+        # the order of requests on the shared object varies per input: a result cached by an earlier request (of either
+        # mode) is what a later one may be answered from
+        order = rng.choice([("forest", "first", "forest-after-prefix"), ("forest-after-prefix", "forest", "first"),
+                            ("first", "forest-after-prefix", "forest"), ("forest-after-prefix", "first", "forest")])
+        for mode in order:
             steps.reset(budget=150000)
             trees = []
             try:
-                if mode == "forest":
+                if mode == "forest-after-prefix":
+                    # soundness must not depend on earlier requests: a prefix-mode parse of the same input (exhausted,
+                    # and first-tree-only) precedes the complete-mode request on the same object
+                    if rng.random() < 0.5:
+                        list(itertools.islice(f.grammar.parse_forest(inp, st, mode=ParsingMode.INCOMPLETE), 60))
+                    else:
+                        f.grammar.parse(inp, st, mode=ParsingMode.INCOMPLETE)
+                    steps.reset(budget=150000)
+                    gen = f.grammar.parse_forest(inp, st, mode=ParsingMode.COMPLETE)
+                    trees = list(itertools.islice(gen, 200))
+                elif mode == "forest":
                     gen = f.grammar.parse_forest(inp, st, mode=ParsingMode.COMPLETE)
                     trees = list(itertools.islice(gen, 200))
                 else:
@@ -158,7 +172,7 @@ def run_case(c):
                 stats["inputs_rejected_by_both" if not ref_ok else "inputs_rejected_ref_accepts"] += 1
             for t in trees:
                 stats["trees_checked"] += 1
-                where = f"parse({'forest' if mode == 'forest' else 'first'}) of {inp!r} from {st}"
+                where = f"parse({mode}) of {inp!r} from {st}"
                 probs = model.check_tree(t, st)
                 if probs:
                     violations.append({"what": f"{where}: yielded tree is not a derivation: {probs[0][1]} at {list(probs[0][0])}", "tree": pretty(t)[:500], "mech": None})
@@ -176,16 +190,23 @@ def run_case(c):
     # ---- API level with word-level constraints
     conv = "bytes" if binary else "str"
     a_lit = repr(as_input(alpha[0])) if alpha else repr(as_input("a"))
-    for tmpl, pred in rng.sample(WORD_CONSTRAINTS, 2):
-        ctext = tmpl.format(conv=conv, a=a_lit)
-        a_val = as_input(alpha[0]) if alpha else as_input("a")
-        if pred is None:
-            if "startswith" in tmpl:
-                pred = lambda w, a_val=a_val: not w.startswith(a_val)
-            else:
-                pred = lambda w, a_val=a_val: w.count(a_val) <= 1
+    a_val = as_input(alpha[0]) if alpha else as_input("a")
+
+    def mkpred(tmpl, pred):
+        if pred is not None:
+            return pred
+        if "startswith" in tmpl:
+            return lambda w: not w.startswith(a_val)
+        return lambda w: w.count(a_val) <= 1
+
+    combos = [rng.sample(WORD_CONSTRAINTS, 1), rng.sample(WORD_CONSTRAINTS, 2), rng.sample(WORD_CONSTRAINTS, 3)]
+    for combo in combos:
+        ctexts = [t.format(conv=conv, a=a_lit) for t, _ in combo]
+        preds = [mkpred(t, p) for t, p in combo]
+        ctext = " ; ".join(ctexts)
+        pred = lambda w, preds=preds: all(p(w) for p in preds)     # every constraint of the spec must hold
         try:
-            f2 = Fandango(specgen.to_spec(rules, constraints=[ctext]), use_stdlib=False)
+            f2 = Fandango(specgen.to_spec(rules, constraints=ctexts), use_stdlib=False)
         except Exception as e:
             stats["api_spec_rejected"] += 1
             continue
